@@ -130,7 +130,9 @@ def cases(tier):
         ops = OPS[model] + (['refinish'] if model in ('a', 'eng') else [])
         if tier == 'quick':
             # quick alphabet: plain calculation, one override, compiled call (+ re-finish on model a)
-            ops = [o for o in OPS[model] if o != OPS[model][2] or model == 'circ'] + (['refinish'] if model == 'a' else [])
+            # (the range override is kept for a and d: what compile() leaves behind on the object shows through ranges and names)
+            drop = OPS[model][1] if model in ('a', 'd') else OPS[model][2]
+            ops = [o for o in OPS[model] if o != drop or model == 'circ'] + (['refinish'] if model == 'a' else [])
         for kpre in ((0, 2) if tier == 'quick' else (0, 1, 2)):
             seqs = list(interleavings(OPS[model] if per == 3 else ops, per))
             if tier == 'thorough' and per == 3:
